@@ -227,7 +227,7 @@ class C18(Machine):
                 elif key_only == 'name':
                     sim['name'] = 'My Test'
                 elif key_only == 'file_dir':
-                    sim['file_dir'] = 'fdir'
+                    sim['file_dir'] = f'fd/d{j}'
                 elif key_only == 'receiver_interpolation':
                     sim['receiver_interpolation'] = rng.choice(['linear',
                                                                 'cubic'])
@@ -254,7 +254,10 @@ class C18(Machine):
             if rng.random() < 0.3:
                 sim['name'] = 'A name'
             if rng.random() < 0.2 and not layered:
-                sim['file_dir'] = 'fdir'
+                # every fresh file-based simulation gets a directory of its
+                # own: two simulations sharing one is the C12 finding (and can
+                # hand the solver a start field of another grid)
+                sim['file_dir'] = f'fd/d{j}'
             if rng.random() < 0.4:
                 sim['receiver_interpolation'] = rng.choice(['linear',
                                                             'cubic'])
@@ -377,7 +380,7 @@ class C18(Machine):
         ctx.pool = simpool.PoolSim(ctx, cfg['policy'], False)
         ctx.io = iofault.IOSim(ctx, ctx.pool)
         root = os.path.join(ctx.scratch, 'work')
-        os.makedirs(root)
+        os.makedirs(os.path.join(root, 'fd'))
         argv0 = list(sys.argv)
         sys.argv = ['emg3d', 'x']
         npop = 0
@@ -573,7 +576,7 @@ class C18(Machine):
                                              inv['args']['load']))
         # the field files of a file-based simulation are durable state too
         import shutil
-        fdir = os.path.join(root, 'fdir')
+        fdir = os.path.join(root, 'fd')
         fpre = os.path.join(ctx.scratch, 'fdir_pre')
         shutil.rmtree(fpre, ignore_errors=True)
         if os.path.isdir(fdir):
@@ -621,6 +624,7 @@ class C18(Machine):
             shutil.rmtree(fdir, ignore_errors=True)
             if os.path.isdir(fcli):
                 shutil.move(fcli, fdir)
+            os.makedirs(fdir, exist_ok=True)
         if got[0] == 'exc' or want[0] == 'exc':
             if got[0] == 'exc' and want[0] == 'ok':
                 key = self._blame(inv, got)
